@@ -594,12 +594,21 @@ def int_of_digits(v):
     return mk_int(z3.StrToInt(sstr(v)))
 
 
+INT_STR = {}       # id(str term) -> (str term, int term): A5  int(str(i)) == i
+
+
+def int_str_term(t):
+    """z3 String term of str(i) for the Int term t (registered so that int() of it gives t back)"""
+    s = z3.simplify(z3.If(t >= 0, z3.IntToStr(t), z3.Concat(z3.StringVal("-"), z3.IntToStr(-t))))
+    INT_STR[s.get_id()] = (s, t)
+    return s
+
+
 def str_of_int(i):
     """str(i) for an int"""
     if isinstance(i, int):
         return str(i)
-    t = sint(i)
-    return mk_str(z3.If(t >= 0, z3.IntToStr(t), z3.Concat(z3.StringVal("-"), z3.IntToStr(-t))))
+    return mk_str(int_str_term(z3.simplify(sint(i))))
 
 
 def in_lang(v, full_pattern):
